@@ -272,6 +272,12 @@ pub fn altv<T: Val>(id: u32) -> T {
 pub fn cbf<A: Val, B: Val>(id: u32) -> impl Fn(A) -> B + Copy + Send + Sync + 'static {
     move |a: A| xcbf::<A, B>(id, a)
 }
+/// like `cbf`, but evaluating the operand expression is an event of its own (an operand evaluation):
+/// its place in the order of events is part of what the operator means
+pub fn lcbf<A: Val, B: Val>(id: u32) -> impl Fn(A) -> B + Copy + Send + Sync + 'static {
+    log::ev(id, K::Op, tag::NONE, 0);
+    move |a: A| xcbf::<A, B>(id, a)
+}
 pub fn xcbf<A: Val, B: Val>(id: u32, a: A) -> B {
     let h = a.hashv();
     call(id, h);
@@ -456,7 +462,8 @@ fn per_branch(evs: &[(u32, K, u64)]) -> BTreeMap<u32, Vec<(u32, K, u64)>> {
 fn compare(mode: &str, c: &ChainCase, rside: &Side, mside: &Side) -> Option<String> {
     let (rr, re) = (rside.result.clone(), rside.evs.clone());
     let (mr, me) = (mside.result.clone(), mside.evs.clone());
-    let calls = |v: &[(u32, K, u64)]| -> Vec<(u32, K, u64)> { v.iter().copied().filter(|e| e.1 == K::Call).collect() };
+    // the ordered trace: callback invocations and operand evaluations (block captures are hoisted: C11)
+    let calls = |v: &[(u32, K, u64)]| -> Vec<(u32, K, u64)> { v.iter().copied().filter(|e| e.1 == K::Call || e.1 == K::Op).collect() };
     let caps = |v: &[(u32, K, u64)]| -> Vec<(u32, K, u64)> { v.iter().copied().filter(|e| e.1 == K::Cap).collect() };
     let multiset_differs = || {
         let mut a: Vec<(u32, K, u64)> = re.clone();
@@ -492,10 +499,10 @@ fn compare(mode: &str, c: &ChainCase, rside: &Side, mside: &Side) -> Option<Stri
                         // nothing more is promised
                     } else if c.concurrent {
                         if per_branch(&calls(&re)) != per_branch(&calls(&me)) {
-                            detail = Some(format!("per-branch callback trace differs: macro {:?}, documented chain {:?}", calls(&me), calls(&re)));
+                            detail = Some(format!("per-branch trace of callback invocations and operand evaluations differs: macro {:?}, documented chain {:?}", calls(&me), calls(&re)));
                         }
                     } else if calls(&re) != calls(&me) {
-                        detail = Some(format!("callback trace differs: macro {:?}, documented chain {:?}", calls(&me), calls(&re)));
+                        detail = Some(format!("trace of callback invocations and operand evaluations differs: macro {:?}, documented chain {:?}", calls(&me), calls(&re)));
                     }
                     if detail.is_none() && mode != "CTL" && !(c.short_circuit && failed) && multiset_differs() {
                         detail = Some(format!("event multiset differs: macro {:?}, documented chain {:?}", me, re));
